@@ -113,6 +113,20 @@ def eval_evolution(name: str, v: Dict[str, Any], mask: int, tally: Tally) -> Lis
         fails.append(("reemit-malformed", f"re-emitted bytes malformed: {e}"))
     if got_unknown is not None and got_unknown != want_unknown:
         fails.append(("unknown-not-preserved", f"unknown records {[x.hex() for x in want_unknown][:4]} re-emitted as {[x.hex() for x in got_unknown][:4]}"))
+    # the same bytes through the size-bounded stream path (load(stream, size=N) with more data
+    # following): must stop exactly at N and give the same message
+    try:
+        import io
+        st = io.BytesIO(data + b"\x08\x01trailing-bytes-of-the-next-frame")
+        o2 = getattr(bp, older.name)().load(st, len(data))
+        tally.inc("edges")
+        if st.tell() != len(data):
+            fails.append(("bounded-load-consumed", f"load(size={len(data)}) left the stream at {st.tell()}"))
+        elif bytes(o2) != back:
+            fails.append(("bounded-load-differs", f"load(size=N) re-encodes to {bytes(o2).hex()[:60]}, parse() to {back.hex()[:60]}"))
+    except Exception as e:
+        if data:
+            fails.append(("bounded-load-raised", f"load(stream, size={len(data)}) raised {type(e).__name__}: {e}"[:200]))
     exp_new = av.normalize(schema, newer, v)
     try:
         n2 = getattr(bp, newer.name)().parse(back)
